@@ -305,3 +305,57 @@ class LocateDispatch(FunctionContract):
 
 
 CONTRACTS.append(LocateDispatch())
+
+
+class FallbackLocator(FunctionContract):
+    """_locate_period_in_span_fallback(period, span) - the look-up for spans without get_loc / index (NumPy arrays): the position of the single
+    element equal to the label, as a Python int; a label equal to no element raises KeyError; a label equal to several elements does not
+    resolve to a single position and raises (never the first or last match); a tuple label is one label (no element-wise comparison).
+    (Spans and labels are enumerated concrete arrays; NumPy runs for real.)"""
+    qualname = 'fsic.core.containers.VectorContainer._locate_period_in_span_fallback'
+    props = ('C10', 'C05')
+    required_covers = ('found', 'absent', 'ambiguous')
+
+    CASES = {
+        'int/first': ([2000, 2001, 2002], 2000, 0), 'int/last': ([2000, 2001, 2002], 2002, 2), 'int/numpy-scalar': ([2000, 2001, 2002], 'np.int64(2001)', 1),
+        'int/float-equal': ([2000, 2001, 2002], 2001.0, 1), 'int/absent': ([2000, 2001, 2002], 1999, KeyError), 'int/near-miss': ([2000, 2001, 2002], 2000.5, KeyError),
+        'int/text-of-label': ([2000, 2001, 2002], '2001', KeyError), 'str/found': (['a', 'b', 'c'], 'b', 1), 'str/prefix': (['ab', 'b', 'c'], 'a', KeyError),
+        'str/longer': (['a', 'b', 'c'], 'ab', KeyError), 'tuple-label': (['a', 'b', 'c'], ('x', 'b', 'y'), KeyError), 'one-tuple-label': (['a', 'b', 'c'], ('a',), KeyError),
+        'duplicate/int': ([2000, 2001, 2000], 2000, 'ambiguous'), 'duplicate/str': (['a', 'a', 'b'], 'a', 'ambiguous'), 'duplicate/other-found': ([5, 5, 7], 7, 2),
+        'empty-span': ([], 1, KeyError), 'object-span-with-tuples': ('object:[(1,2),(3,4),"q"]', (3, 4), 1),
+    }
+
+    def scenarios(self):
+        return list(self.CASES)
+
+    def setup(self, interp, scenario):
+        import numpy as np
+        span, label, want = self.CASES[scenario]
+        if isinstance(span, str):
+            arr = np.empty(3, dtype=object)
+            arr[0], arr[1], arr[2] = (1, 2), (3, 4), 'q'
+        else:
+            arr = np.array(span)
+        if isinstance(label, str) and label.startswith('np.int64('):
+            label = np.int64(int(label[9:-1]))
+        e = {'want': want, 'inputs': {}}
+        return Call([label, arr], {}, entry=e)
+
+    def post(self, interp, scenario, call, out):
+        ctx = interp.ctx
+        want = call.entry['want']
+        if out.kind == 'raise':
+            cls = exc_class(out.exc)
+            if want == 'ambiguous':
+                ctx.cover('ambiguous')
+                ctx.prove(z3.BoolVal(True), 'a_label_with_several_positions_does_not_resolve', 'raises')
+                return
+            ctx.cover('absent')
+            ctx.prove(z3.BoolVal(want is KeyError and cls is KeyError), 'KeyError_exactly_for_a_label_equal_to_no_element', 'raises', note=f'{getattr(cls, "__name__", cls)}')
+            return
+        ctx.cover('found')
+        ctx.prove(z3.BoolVal(isinstance(want, int) and not isinstance(want, bool)), 'a_label_without_a_single_position_is_not_resolved_to_one', 'raises', note=str(out.value))
+        ctx.prove(z3.BoolVal(type(out.value) is int and out.value == want), 'returns_the_position_of_the_single_equal_element_as_a_python_int', 'ensures', note=repr(out.value))
+
+
+CONTRACTS.append(FallbackLocator())
